@@ -85,6 +85,13 @@ theorem C03_ldap_isolated (creds : List String) (s : String) (sched : List (Stri
       = (runSolo (ldap creds) none Auth.LdapSt.init (inputsOf s sched)).2 :=
   C03_isolation (ldap creds) (fun a => a) s sched (fun _ _ h => h)
 
+/-- ftp: login state and working directory of a session depend on its own commands only — whatever
+the other sessions do in between (logins, directory changes), in every interleaving. -/
+theorem C03_ftp_isolated (dirs : List String) (s : String) (sched : List (String × (String × String))) :
+    view s (runG (ftpSvc dirs) (fun a => a) (G.init (ftpSvc dirs)) sched).2
+      = (runSolo (ftpSvc dirs) none { auth := Auth.FtpSt.init, cwd := "/" } (inputsOf s sched)).2 :=
+  C03_isolation (ftpSvc dirs) (fun a => a) s sched (fun _ _ h => h)
+
 /-! ## the shapes of the repaired defects (and of a key that is not the client's own) -/
 
 /-- the ldap service as it was: the bind state lived in the one service object (every session's key
@@ -124,6 +131,7 @@ HT.Iso.C03_isolation
 HT.Iso.C03_any_two_schedules
 HT.Iso.C03_tftp_isolated
 HT.Iso.C03_ldap_isolated
+HT.Iso.C03_ftp_isolated
 HT.Iso.C03_counterexample_shared_bind_state
 HT.Iso.C03_counterexample_key_collision
 -/
